@@ -22,6 +22,11 @@ func propC11(c *Ctx, r *Report) {
 	r.Clauses = append(r.Clauses, "swizzle width (E20): every lowerer function that maps a swizzle letter to a component with the raw letter mapper also compares the component with the vector's size, so `v.z` on a vec2 is rejected on every path (value and reference context)")
 	c.runSwizzleChecked(r, "swizzle.checked")
 	r.floor("swizzle.checked", 2)
+	r.Clauses = append(r.Clauses, flagNestClause, forHeaderClause)
+	c.runFlagNest(r, "flag.nest", inPkgs("ir", "wgsl"), flagNestExceptions)
+	r.floor("flag.nest", 2)
+	c.runForHeader(r, "parse.forheader", "wgsl/internal/parser")
+	r.floor("parse.forheader", 8)
 	r.Clauses = append(r.Clauses, "token characters (E20): in the lexer's punctuation scanner the characters consumed on the path to every addToken(K) spell exactly the WGSL token K (a delimiter or semicolon can only be diagnosed as missing if the tokens around it are cut at the right places)")
 	c.runLexerTokenChars(r, "lex.tokenchars")
 	r.floor("lex.tokenchars", 40)
